@@ -335,3 +335,7 @@ func TestPool(t *testing.T) {
 		Gen:  genPool, Run: runPool,
 	})
 }
+
+func FuzzFn(f *testing.F) {
+	pbt.Fuzz(f, pbt.Prop[FnCase]{ID: "C06", Name: "fuzz-fn", Rule: "native coverage-guided fuzzing (go test -fuzz) of sanitizer options x input strings against the reference sanitizer: the fuzzer's bytes are rapid's random stream", Gen: genFn, Run: runFn})
+}
